@@ -107,6 +107,23 @@ def rule_a_f(repo, chk):
                                  for m in g.nodes)
                 chk.ob('f', f.ref, f'a decoding error of `{arg}` cannot leave add_buffer (handled here, or the same bytes were decoded successfully before)',
                        in_try or predecoded or not dec, loc(f, c), discr=f'decode-contained:{arg}')
+    # routing: decided on the structure of the decoded document, never by searching the raw text (payload data can contain any text)
+    chk.rule('C19.i', 'a packet is routed to the call or the value decoder by the keys of the decoded document, not by a substring of its text')
+    gp = pp.cfg()
+    raw = pp.params[1]
+    text_tests = [n for n in gp.nodes if n.kind == 'test' and any(isinstance(w, ast.Compare) and any(isinstance(o, (ast.In, ast.NotIn)) for o in w.ops)
+                                                                  and any(src(c) == raw for c in w.comparators) and isinstance(w.left, ast.Constant)
+                                                                  for w in ast.walk(n.ast))]
+    docs = [n for n in gp.nodes if n.kind == 'stmt' and isinstance(n.ast, ast.Assign) and any(call_name(c) in ('json.loads', 'loads') for c in calls_in(n.ast))]
+    routes = [n for n in gp.nodes if n.kind == 'stmt' and any(r == 'self' for m_ in ('__process_packet_value', '__process_packet_call') for r, _c in pat.method_calls(n.ast, m_))]
+    ok_doc = bool(docs) and all(Q.reachable_without(gp, r_, avoid_node=lambda n: n in docs) is None for r_ in routes)
+    chk.ob('i', pp.ref, 'the routing decision is taken on the decoded document', ok_doc and not text_tests and len(routes) >= 2, loc(pp, pp.node),
+           detail='; '.join(src(n.ast) for n in text_tests), discr='routed-by-structure')
+    if docs:
+        dv_ = src(docs[0].ast.targets[0])
+        key_tests = [n for n in gp.nodes if n.kind == 'test' and isinstance(n.ast, ast.Compare) and isinstance(n.ast.left, ast.Constant) and
+                     src(n.ast.comparators[0]) == dv_ and n.ast.left.value == 'name']
+        chk.ob('i', pp.ref, 'the discriminating key is one that only events carry at top level (name)', bool(key_tests), loc(pp, pp.node), discr='routing-key')
     for name, loader in (('__process_packet_call', 'load_event'), ('__process_packet_value', 'load_value')):
         h = need(_m(cls, name), f'C19.f: {name} missing')
         chk.touch(h)
